@@ -139,6 +139,8 @@ def unary(ctx, P, a, k, rng, full=True):
                 same(ctx, 'setitem', Z if not is_exc(r) else r, w, k, idx=str(sl), v=vals, form=form, **det)
     if n:
         lists = [[0], [n - 1], list(range(n)), list(range(n - 1, -1, -1)), [0, 0, n - 1], [rng.randrange(n) for _ in range(rng.randrange(1, n + 3))]]
+        for L in [[-1], [-1, 0], [-n, n - 1, -1], [rng.randrange(-n, n) for _ in range(n + 1)]]:
+            same(ctx, 'getitem', call(lambda: A[L]), [a[i] for i in L], k, idx=L, negative_entries=True, **det)
         for L in lists:
             same(ctx, 'getitem', call(lambda: A[L]), [a[i] for i in L], k, idx=L, **det)
             same(ctx, 'getitem', call(lambda: A[tuple(L)]), [a[i] for i in L], k, idx=L, **det)
